@@ -1,6 +1,6 @@
 (* C06 - Failure stops the run; statuses, failed flag and exit code are truthful. *)
 From Coq Require Import List Arith Bool.
-From MR Require Import Model.Sched Proofs.SchedProof Proofs.SchedFinal.
+From MR Require Import Model.Sched Model.Compressor Proofs.SchedProof Proofs.SchedFinal Proofs.CompressorProof.
 Import ListNotations.
 
 Definition is_run (r : status) : Prop := r = Success \/ exists c, r = Error c.
@@ -33,4 +33,15 @@ Example C06_nonvacuous :
   rev (results s) = [((0,0,0), Success); ((0,0,1), Error (Some 3)); ((0,1,0), Skipped); ((1,0,0), Skipped)].
 Proof. vm_compute. auto. Qed.
 
+(* "never an internal error under every timing of its internal tasks": the log compressor's shutdown protocol.
+   T threads, n registered clients (client r talks to thread r mod T), every client sends its data and then one
+   Shutdown; for EVERY interleaving of sends and receives no send ever finds its channel closed - which is what
+   turned four succeeding commands into exit status 2 in the pinned commit. *)
+Definition C06_shutdown_statement (srun : nat -> nat -> list schoice -> sst) : Prop :=
+  forall T n cs, 0 < T -> send_failed (srun T n cs) = false.
+
+Theorem C06_shutdown_holds : C06_shutdown_statement (fun T n => srun T n true).
+Proof. intros T n cs HT. apply shutdown_never_fails. exact HT. Qed.
+
 Print Assumptions C06_holds.
+Print Assumptions C06_shutdown_holds.
